@@ -19,7 +19,7 @@ ASSUMPTIONS = S.ASSUMPTIONS
 def sweep_specs(rng, tier):
     out = []
     w = 0
-    for L in range(0, 4 * 50 + 3):
+    for L in range(0, 4 * 50 + 3, 1 if tier == 'thorough' else 1):
         w += 1
         nodes = S.two_nodes(cmax=50, smax=50, cwin=1 + (w % 8), swin=1 + ((w // 8) % 8), know=(L % 3 != 0))
         if L % 2 == 0:
@@ -64,13 +64,19 @@ def cases(rng, tier):
     out = []
     for spec in sweep_specs(rng, tier):
         out.append(S.scenario_case(spec, 'length-sweep'))
-    fams = 6 if tier == 'thorough' else 2
+    # every single fault at every frame of two fixed transfers that are segmented in both directions
+    for (cw, sw, rl, pl) in ((2, 2, 180, 180), (3, 4, 130, 230)):
+        nodes = S.two_nodes(cwin=cw, swin=sw, know=True)
+        req = {'t': 0, 'src': 1, 'dst': 2, 'len': rl, 'service': 12, 'resp': ['complex', pl], 'resp_delay': 0}
+        for spec, fault, base in S.single_fault_family(rng, nodes=nodes, req=req):
+            out.append(S.scenario_case(spec, 'single-fault'))
+    fams = 20 if tier == 'thorough' else 1
     for _ in range(fams):
         for spec, fault, base in S.single_fault_family(rng):
             out.append(S.scenario_case(spec, 'single-fault'))
     for spec in long_specs(tier):
         out.append(S.scenario_case(spec, 'long-transfer'))
-    for _ in range(600 if tier == 'thorough' else 60):
+    for _ in range(2500 if tier == 'thorough' else 60):
         spec = S.gen_transaction(rng, maxfaults=4)
         out.append(S.scenario_case(spec, 'multi-fault'))
     out += in_window_cases(rng, 2000 if tier == 'thorough' else 300)
@@ -144,7 +150,7 @@ def single_fault_eval(spec):
 
 def direct(rng, tier, focus=()):
     big = tier == 'thorough'
-    fams = [('transaction', lambda r: S.gen_transaction(r, big=r.random() < 0.15, maxfaults=4), 30000 if big else 2500),
+    fams = [('transaction', lambda r: S.gen_transaction(r, big=r.random() < 0.15, maxfaults=4), 80000 if big else 2500),
             ('concurrent', lambda r: S.gen_concurrent(r), 1500 if big else 100)]
     failures, stats = S.direct_families(rng, fams, S.check_c05, focus)
     for spec in sweep_specs(rng, 'thorough') + long_specs('thorough'):
@@ -154,7 +160,7 @@ def direct(rng, tier, focus=()):
             f['family'] = 'sweep'
             f['max_nsegs'] = S.max_transfer_segments(tr)
         failures.extend(fs)
-    failures.extend(single_fault_failures(rng, 150 if big else 25, stats))
+    failures.extend(single_fault_failures(rng, 600 if big else 25, stats))
     failures.extend(S.known_replays('C05', S.check_c05))
     # the canonical single-fault witness of C05-K1
     import core, json
